@@ -35,7 +35,8 @@ _LCACHE = {}
 _RUNS = [0]
 
 
-MAJOR = ("RunTaskExecutable.start_execution", "RunTaskExecutable.finish_execution", "CombineOutputs.start_execution",
+LOADER = SRC + "parsing/task_loader.py"
+MAJOR = ("TaskLoader._run_include", "TaskLoader.parse_cond_file", "RunTaskExecutable.start_execution", "RunTaskExecutable.finish_execution", "CombineOutputs.start_execution",
          "Executor._launch_ops_if_able", "Executor._wait_for_next_inflight_op", "Executor._report_execution_results",
          "Executor.run_plan", "ExecutionPlanner.create_plan_for", "SigchldHelper._handler", "SigchldHelper.track",
          "TaskIndex.load_transitive_closure", "Context.__init__", "main", "cli_command.<locals>.command_main")
@@ -129,7 +130,8 @@ class Injector:
                 return self.local
             if self.k is None or self.n == self.k:
                 code = frame.f_code
-                where = "%s:%s:%d" % (code.co_filename[len(SRC):], code.co_qualname, frame.f_lineno)
+                where = "%s:%s:%d" % (code.co_filename[len(SRC):] if code.co_filename.startswith(SRC) else "user-code-run-by-" +
+                                      frame.f_back.f_code.co_qualname, code.co_qualname, frame.f_lineno)
                 self.site = site_of(frame)
             else:
                 where = None
@@ -137,8 +139,12 @@ class Injector:
         return self.local
 
     def glob(self, frame, event, arg):
-        if frame.f_code.co_filename.startswith(SRC):
+        fn = frame.f_code.co_filename
+        if fn.startswith(SRC):
             self.env.entered(frame)
+            return self.local
+        if fn == "<string>" and frame.f_back is not None and frame.f_back.f_code.co_filename == LOADER:
+            # the user's own COND / included code, executed by the task loader: part of planning
             return self.local
         return None
 
@@ -176,10 +182,17 @@ class FixedSched(fakeos.Sched):
         return fakeos.StatusExited(rc)
 
 
-def run_once(g, specs, root, jobs, bad, inj, calls, stop_early=False, replay=None):
+INCLUDED = "A = 1\nB = [i * 2 for i in range(2)]\nC = {'k': A}\n"
+
+
+def run_once(g, specs, root, jobs, bad, inj, calls, stop_early=False, replay=None, include=False):
     import conductor.cli.run as cli_run
     proj = hrun.Project()
-    proj.write_tasks(specs)
+    if include:
+        proj.write("common.cond", INCLUDED)
+        proj.write_tasks(specs, prelude="include('//common.cond')\n")
+    else:
+        proj.write_tasks(specs)
     sched = FixedSched(g, specs, bad, calls, replay=replay)
     kernel = fakeos.Kernel(sched, clock=fakeos.Clock())
     kernel.on_block = inj.on_block
@@ -211,7 +224,7 @@ def run_once(g, specs, root, jobs, bad, inj, calls, stop_early=False, replay=Non
     return res
 
 
-def make(n, kinds, jobs_hi, sigterm_bit=True, orders="rev"):
+def make(n, kinds, jobs_hi, sigterm_bit=True, orders="rev", include=False):
     def fn(g):
         specs = graphs.sym_graph(g, n, kinds, orders=orders)
         root = n - 1
@@ -234,7 +247,7 @@ def make(n, kinds, jobs_hi, sigterm_bit=True, orders="rev"):
         if L is None:
             calls = []
             base = Injector(k=None)
-            r0 = run_once(g, specs, root, jobs, bad, base, calls)
+            r0 = run_once(g, specs, root, jobs, bad, base, calls, include=include)
             r0.proj.cleanup()
             L = base.n
             order = [c[2] for c in calls]
@@ -257,7 +270,7 @@ def make(n, kinds, jobs_hi, sigterm_bit=True, orders="rev"):
             k = (k + (int(L * frac) // 64) * 64) % max(L, 1)      # canaries start in the middle of the run
         # 2. the run with the signal at point k
         inj = Injector(k=k, sig=sig)
-        res = run_once(g, specs, root, jobs, bad, inj, [], replay=order)
+        res = run_once(g, specs, root, jobs, bad, inj, [], replay=order, include=include)
         try:
             if inj.fired is None:
                 return {"nontrivial": False, "sample": None}
@@ -315,6 +328,10 @@ def make(n, kinds, jobs_hi, sigterm_bit=True, orders="rev"):
                 g.goal("signal while the failure of a task is being reported")
             if "planner" in where:
                 g.goal("signal during planning")
+            if "user-code-run-by-TaskLoader._run_include" in where:
+                g.goal("signal while an included file is being evaluated")
+            if "user-code-run-by-TaskLoader.parse_cond_file" in where:
+                g.goal("signal while a COND file is being evaluated")
             if "finish_execution" in where:
                 g.goal("signal while finishing a task")
             return {"nontrivial": bool(running_at),
@@ -366,6 +383,11 @@ def spaces(tier):
                 "2 sequential experiments t0 <- t1, t0 may fail, SIGINT or SIGTERM at every point", depth="marker",
                 goals=["signal while the failure of a task is being reported"],
                 preset={"e0_1": True, "p0": False, "p1": False, "bad1": False})]
+    sp.append(Space("chain2-include", make(2, ("run_experiment",), 1, sigterm_bit=True, include=True),
+                    "2 sequential experiments t0 <- t1 in a COND file that include()s a .cond file of three statements; SIGINT or SIGTERM at every "
+                    "executed line, including the lines of the user's COND file and of the included file (run by the task loader)", depth="marker",
+                    goals=["signal while an included file is being evaluated", "signal while a COND file is being evaluated"],
+                    preset={"e0_1": True, "p0": False, "p1": False, "bad0": False, "bad1": False}))
     sp.append(Space("par4-j3", make(4, ("run_experiment", "run_command"), 3, sigterm_bit=False),
                     "4 tasks: t0, t1, t2 independent and parallelizable (command, experiment, command), t3 (experiment) depends on all "
                     "three; --jobs 3; SIGINT at every executed line and every blocked read", depth="marker",
